@@ -35,6 +35,17 @@ def handler(c):
             w = c['which']
             # 'naive': the same instants handed over without a time zone (the schedules stamp UTC themselves)
             tsx = (lambda x: ts(x).tz_localize(None)) if c.get('naive') else ts
+            if c.get('other_first'):
+                # a schedule of the same range with the OTHER market-time choice is built first in this process
+                try:
+                    if w == 'weekly':
+                        WeeklyRebalance(tsx(c['start']), tsx(c['stop']), c['weekday'], pre_market=not c['pm']).rebalances
+                    elif w == 'daily':
+                        DailyRebalance(tsx(c['start']), tsx(c['stop']), pre_market=not c['pm']).rebalances
+                    elif w == 'end_of_month':
+                        EndOfMonthRebalance(tsx(c['start']), tsx(c['stop']), pre_market=not c['pm']).rebalances
+                except Exception:
+                    pass
             if w == 'weekly':
                 r = WeeklyRebalance(tsx(c['start']), tsx(c['stop']), c['weekday'], pre_market=c['pm'])
             elif w == 'daily':
@@ -52,6 +63,16 @@ def handler(c):
                 out.append([[sec(e.ts), e.event_type] for e in eng])         # the walk the schedule is matched against
                 out.append(n_first)
             return out
+        if k == 'sess_clock':
+            from qstrader.trading.backtest import BacktestTradingSession
+            from qstrader.asset.universe.static import StaticUniverse
+            from qstrader.alpha_model.fixed_signals import FixedSignalsAlphaModel
+            kw = {'rebalance_weekday': 'WED'} if c['which'] == 'weekly' else {}
+            sess = BacktestTradingSession(ts(c['start']), ts(c['stop']), StaticUniverse(['EQ:A']), FixedSignalsAlphaModel({'EQ:A': 1.0}),
+                                          rebalance=c['which'], long_only=True, cash_buffer_percentage=0.05,
+                                          burn_in_dt=(None if c.get('burn') is None else ts(c['burn'])),
+                                          data_handler=StubDataHandler([]), **kw)
+            return ['ok', [[sec(e.ts), e.event_type] for e in sess.sim_engine]]
         if k == 'sess_sched':
             from qstrader.trading.backtest import BacktestTradingSession
             from qstrader.asset.universe.static import StaticUniverse
